@@ -11,7 +11,7 @@ from common import (COQ, Verdict, clist, coq_eval_files, copt, cstr, gen_dir, pa
                     repo_blob_ids, write_evidence, TRUSTED_BASE)
 
 PROP = 'C16'
-PROOF_FILES = [f for f in ['theories/Edit.v', 'proofs/EditProofs.v'] if os.path.exists(os.path.join(COQ, f))]
+PROOF_FILES = [f for f in ['theories/Edit.v', 'theories/EditCorr.v', 'proofs/EditProofs.v', 'proofs/EditTraceProofs.v'] if os.path.exists(os.path.join(COQ, f))]
 
 HEADER = '''From Sismic Require Import Base Chart Edit EditCorr.
 Open Scope string_scope.
@@ -67,6 +67,18 @@ FREED = []
 RETAINED = []
 
 
+def own_subtree(sc, n):
+    """n and the states below it, read from the parent map alone"""
+    if n not in sc._states:
+        return []
+    out, todo = [], [n]
+    while todo and len(out) < 10000:
+        x = todo.pop(0)
+        out.append(x)
+        todo.extend(c for c, p in sc._parent.items() if p == x and c not in out and c not in todo)
+    return out
+
+
 def random_op(rng, sc, uniq):
     """-> (description for Coq, thunk performing it on sc)"""
     from sismic.model import Transition
@@ -86,9 +98,9 @@ def random_op(rng, sc, uniq):
                 lambda: sc.add_state(st, parent), 'add_state')
     if r < 0.35:
         n = pick()
-        FREED.extend([n] + (list(sc.descendants_for(n)) if n in sc._states else []))
-        if n in sc._states:
-            RETAINED.extend(sc._states[x] for x in [n] + list(sc.descendants_for(n)))
+        sub = own_subtree(sc, n)          # the harness's own traversal: its bookkeeping does not go through the queries under test
+        FREED.extend(sub or [n])
+        RETAINED.extend(sc._states[x] for x in sub if x in sc._states)
         return ('(ERemoveState %s)' % cstr(n), lambda: sc.remove_state(n), 'remove_state')
     if r < 0.5:
         o = pick()
@@ -132,29 +144,7 @@ def random_op(rng, sc, uniq):
     return (coq, lambda: sc.rotate_transition(t, new_source=ns, new_target=nt), 'rotate_transition')
 
 
-class Timeout(BaseException):
-    pass
-
-
-class time_limit:
-    """SIGALRM guard: an edit that leaves the statechart cyclic makes the traversals loop forever"""
-
-    def __init__(self, seconds):
-        self.seconds = seconds
-
-    def __enter__(self):
-        import signal
-
-        def handler(signum, frame):
-            raise Timeout()
-        self.old = signal.signal(signal.SIGALRM, handler)
-        signal.alarm(self.seconds)
-
-    def __exit__(self, *a):
-        import signal
-        signal.alarm(0)
-        signal.signal(signal.SIGALRM, self.old)
-        return False
+from common import Timeout, time_limit  # noqa: E402
 
 
 def queries(sc):
